@@ -35,9 +35,11 @@ def narwhals_series_to_pandas(series: Any) -> pandas.Series:
     if series.dtype in (nw.Categorical, nw.Enum) and not isinstance(
         converted.dtype, pandas.CategoricalDtype
     ):
+        # Rebuilt from the plain values: the backend's conversion of
+        # dictionary-encoded data is also not reliable for nulls.
         converted = pandas.Series(
             pandas.Categorical(
-                converted, categories=series.cat.get_categories().to_list()
+                series.to_list(), categories=series.cat.get_categories().to_list()
             ),
             index=converted.index,
             name=converted.name,
